@@ -340,6 +340,15 @@ func runCheck(id, tier, only string, workers int, verbose bool) int {
 				detail = "(engine-only harness: not replayed)"
 			} else {
 				res := getRunner(j.h.Pkg).run([]string{recPath})
+				// replays of recorded schedules and timer firings pause real goroutines for fixed
+				// times: on a loaded machine a pause can be too short. A run that passed is
+				// repeated (twice at most) with pauses three times as long before the model is
+				// declared non-reproducing
+				for attempt := 0; attempt < 2 && len(res) == 1 && res[0].Crashed == "" && (res[0].Panic == "" || res[0].Panic == "<nil>") && len(res[0].Failed) == 0 && len(res[0].KnownFailed) == 0 && res[0].Rejected == ""; attempt++ {
+					os.Setenv("VERIF_SLOW", "3")
+					res = getRunner(j.h.Pkg).run([]string{recPath})
+					os.Unsetenv("VERIF_SLOW")
+				}
 				if len(res) == 1 {
 					r := res[0]
 					switch {
